@@ -45,54 +45,6 @@ Theorem C17_x86_target_sets_order_independent :
 Proof. exact x86_target_sets_order_independent. Qed.
 Print Assumptions C17_x86_target_sets_order_independent.
 
-(* ---------- round 2: the order of the emitted type instances (fix f423564) ----------
-   The checker collects the monomorphic instances from `SymbolTable.types` (a HashMap: arbitrary iteration order;
-   in the model: insertion order, i.e. the order in which the definitions first needed them) and sorts the data and
-   the codata declarations by name (`sort_by`, byte-wise `String::cmp`).  The sorted list is a function of the SET
-   of instances: [klt] is the strict order of `String::cmp`; uniqueness of a strictly sorted list is the ordered-set
-   lemma of Proof/Determinism.v (as for the back ends' BTreeSets). *)
-From Coq Require Import String Sorted.
-From SCC Require Import Lang.FunSyn Model.Check Sem.FunNames Proof.InstOrder.
-
-(* two lists with pairwise different names and the same elements sort to the same list *)
-Theorem C17_sorted_instances_function_of_set :
-  forall (X : Type) (key : X -> string) (l l' : list X),
-    NoDup (map key l) -> NoDup (map key l') -> (forall x, In x l <-> In x l') ->
-    sort_by_name key l = sort_by_name key l'.
-Proof. exact @sort_by_name_set. Qed.
-Print Assumptions C17_sorted_instances_function_of_set.
-
-(* whatever the order in which the instance table is enumerated (any permutation of its entries: any hash
-   iteration order, any order in which the definitions created the instances), the emitted lists are the same *)
-Theorem C17_instance_collection_order_irrelevant :
-  forall st l l' das cos das' cos',
-    NoDup (map fst l) -> Permutation l l' ->
-    collect_types st l = COk (das, cos) -> collect_types st l' = COk (das', cos') ->
-    sort_by_name fdaname das = sort_by_name fdaname das' /\ sort_by_name fcoaname cos = sort_by_name fcoaname cos'.
-Proof. exact collect_sorted_order_independent. Qed.
-Print Assumptions C17_instance_collection_order_irrelevant.
-
-(* the declaration lists of every accepted program are strictly sorted by name ... *)
-Theorem C17_checked_instances_sorted : forall p q, prog_names_ok p = true -> check p = COk q ->
-  StronglySorted klt (map fdaname (fcpdata q)) /\ StronglySorted klt (map fcoaname (fcpcodata q)).
-Proof. exact (check_output_sorted true). Qed.
-Print Assumptions C17_checked_instances_sorted.
-(* ... so two accepted programs (e.g. the same declarations in another order) that need the same SET of
-   instances emit the same LIST of instances *)
-Theorem C17_checked_instances_function_of_set : forall p q p' q',
-  prog_names_ok p = true -> prog_names_ok p' = true -> check p = COk q -> check p' = COk q' ->
-  ((forall d, In d (fcpdata q) <-> In d (fcpdata q')) -> fcpdata q = fcpdata q')
-  /\ ((forall d, In d (fcpcodata q) <-> In d (fcpcodata q')) -> fcpcodata q = fcpcodata q').
-Proof. intros p q p' q'. exact (check_instances_function_of_set true p q true p' q'). Qed.
-Print Assumptions C17_checked_instances_function_of_set.
-(* the hypotheses are satisfiable and the statement is not vacuous: three instances inserted in two different
-   orders (by name: "List[i64]" < "Pair[i64, i64]" < "Zed") *)
-Example C17_sort_example :
-  sort_by_name (fun s : string => s) ["Zed"; "List[i64]"; "Pair[i64, i64]"]%string
-  = sort_by_name (fun s : string => s) ["Pair[i64, i64]"; "Zed"; "List[i64]"]%string
-  /\ sort_by_name (fun s : string => s) ["Zed"; "List[i64]"; "Pair[i64, i64]"]%string = ["List[i64]"; "Pair[i64, i64]"; "Zed"]%string.
-Proof. split; reflexivity. Qed.
-Print Assumptions C17_sort_example.
 (* ======================= round 2: the label counter only renumbers labels =======================
    The Rust label counter is a process-global static (axcut2backend/src/fresh_labels.rs): what was
    compiled before in the same process shifts every generated number.  PROVED (Proof/LabelShift.v,
@@ -212,3 +164,52 @@ Theorem C17_first_occurrence_numbering_of_shifted_labels :
       canon (numbers cut (map (rho cut (renumber c1 c2)) ls)) = canon (numbers cut ls).
 Proof. exact canon_numbers_shift. Qed.
 Print Assumptions C17_first_occurrence_numbering_of_shifted_labels.
+
+(* ---------- round 2: the order of the emitted type instances (fix f423564) ----------
+   The checker collects the monomorphic instances from `SymbolTable.types` (a HashMap: arbitrary iteration order;
+   in the model: insertion order, i.e. the order in which the definitions first needed them) and sorts the data and
+   the codata declarations by name (`sort_by`, byte-wise `String::cmp`).  The sorted list is a function of the SET
+   of instances: [klt] is the strict order of `String::cmp`; uniqueness of a strictly sorted list is the ordered-set
+   lemma of Proof/Determinism.v (as for the back ends' BTreeSets). *)
+From Coq Require Import String Sorted.
+From SCC Require Import Lang.FunSyn Model.Check Sem.FunNames Proof.InstOrder.
+
+(* two lists with pairwise different names and the same elements sort to the same list *)
+Theorem C17_sorted_instances_function_of_set :
+  forall (X : Type) (key : X -> string) (l l' : list X),
+    NoDup (map key l) -> NoDup (map key l') -> (forall x, In x l <-> In x l') ->
+    sort_by_name key l = sort_by_name key l'.
+Proof. exact @sort_by_name_set. Qed.
+Print Assumptions C17_sorted_instances_function_of_set.
+
+(* whatever the order in which the instance table is enumerated (any permutation of its entries: any hash
+   iteration order, any order in which the definitions created the instances), the emitted lists are the same *)
+Theorem C17_instance_collection_order_irrelevant :
+  forall st l l' das cos das' cos',
+    NoDup (map fst l) -> Permutation l l' ->
+    collect_types st l = COk (das, cos) -> collect_types st l' = COk (das', cos') ->
+    sort_by_name fdaname das = sort_by_name fdaname das' /\ sort_by_name fcoaname cos = sort_by_name fcoaname cos'.
+Proof. exact collect_sorted_order_independent. Qed.
+Print Assumptions C17_instance_collection_order_irrelevant.
+
+(* the declaration lists of every accepted program are strictly sorted by name ... *)
+Theorem C17_checked_instances_sorted : forall p q, prog_names_ok p = true -> check p = COk q ->
+  StronglySorted klt (map fdaname (fcpdata q)) /\ StronglySorted klt (map fcoaname (fcpcodata q)).
+Proof. exact (check_output_sorted true). Qed.
+Print Assumptions C17_checked_instances_sorted.
+(* ... so two accepted programs (e.g. the same declarations in another order) that need the same SET of
+   instances emit the same LIST of instances *)
+Theorem C17_checked_instances_function_of_set : forall p q p' q',
+  prog_names_ok p = true -> prog_names_ok p' = true -> check p = COk q -> check p' = COk q' ->
+  ((forall d, In d (fcpdata q) <-> In d (fcpdata q')) -> fcpdata q = fcpdata q')
+  /\ ((forall d, In d (fcpcodata q) <-> In d (fcpcodata q')) -> fcpcodata q = fcpcodata q').
+Proof. intros p q p' q'. exact (check_instances_function_of_set true p q true p' q'). Qed.
+Print Assumptions C17_checked_instances_function_of_set.
+(* the hypotheses are satisfiable and the statement is not vacuous: three instances inserted in two different
+   orders (by name: "List[i64]" < "Pair[i64, i64]" < "Zed") *)
+Example C17_sort_example :
+  sort_by_name (fun s : string => s) ["Zed"; "List[i64]"; "Pair[i64, i64]"]%string
+  = sort_by_name (fun s : string => s) ["Pair[i64, i64]"; "Zed"; "List[i64]"]%string
+  /\ sort_by_name (fun s : string => s) ["Zed"; "List[i64]"; "Pair[i64, i64]"]%string = ["List[i64]"; "Pair[i64, i64]"; "Zed"]%string.
+Proof. split; reflexivity. Qed.
+Print Assumptions C17_sort_example.
